@@ -163,7 +163,65 @@ def _helper_shape(h):
         return ("proc", [s for s in body if not isinstance(s, ast.Return)])
     if len(rets) == 1 and body and body[-1] is rets[0] and rets[0].value is not None:
         return ("func", body[:-1], rets[0].value)
+    if all(r.value is not None for r in rets) and _tail_returns(body):
+        return ("tail", body)
     return None
+
+
+def _tail_returns(stmts):
+    """every path through `stmts` ends in a `return <value>` that is the last statement of its block (guard clauses)"""
+    if not stmts:
+        return False
+    for i, st in enumerate(stmts):
+        if isinstance(st, ast.Return):
+            return i == len(stmts) - 1
+        if isinstance(st, ast.If):
+            b = _ends_with_return(st.body)
+            o = _ends_with_return(st.orelse) if st.orelse else False
+            if b or o:
+                if not (_tail_returns(st.body) if b else not _has_return(st.body)):
+                    return False
+                if st.orelse and not (_tail_returns(st.orelse) if o else not _has_return(st.orelse)):
+                    return False
+                if b and (o or not st.orelse):
+                    if b and o:
+                        return i == len(stmts) - 1 or False
+                    return _tail_returns(stmts[i + 1:])
+                if o and not b:
+                    return _tail_returns(stmts[i + 1:])
+            elif _has_return(st.body) or _has_return(st.orelse):
+                return False
+        elif isinstance(st, (ast.For, ast.While, ast.Try, ast.With)) and _has_return([st]):
+            return False
+    return False
+
+
+def _has_return(stmts):
+    return any(isinstance(n, ast.Return) for s in stmts for n in ast.walk(s))
+
+
+def _ends_with_return(stmts):
+    return bool(stmts) and (isinstance(stmts[-1], ast.Return) or (isinstance(stmts[-1], ast.If) and _ends_with_return(stmts[-1].body) and bool(stmts[-1].orelse) and _ends_with_return(stmts[-1].orelse)))
+
+
+def _returns_to_assign(stmts, target):
+    """rewrite guard-clause returns into assignments to `target` (an ast expr) with if/else nesting"""
+    out = []
+    for i, st in enumerate(stmts):
+        if isinstance(st, ast.Return):
+            out.append(ast.Assign(targets=[copy.deepcopy(target)], value=st.value, lineno=getattr(st, "lineno", 0), col_offset=0))
+            return out
+        if isinstance(st, ast.If) and (_ends_with_return(st.body) or (st.orelse and _ends_with_return(st.orelse))):
+            rest = stmts[i + 1:]
+            b = _returns_to_assign(st.body, target) if _ends_with_return(st.body) else list(st.body) + _returns_to_assign(rest, target)
+            if st.orelse:
+                o = _returns_to_assign(st.orelse, target) if _ends_with_return(st.orelse) else list(st.orelse) + _returns_to_assign(rest, target)
+            else:
+                o = _returns_to_assign(rest, target)
+            out.append(ast.If(test=st.test, body=b, orelse=o, lineno=getattr(st, "lineno", 0), col_offset=0))
+            return out
+        out.append(st)
+    return out
 
 
 def _bind(h, call, recv):
@@ -199,7 +257,7 @@ def _bind(h, call, recv):
     return mapping
 
 
-def _instantiate(h, shape, mapping, tag):
+def _instantiate(h, shape, mapping, tag, result_target=None):
     mapping = dict(mapping)
     stored = assigned_names(h)
     prologue = []
@@ -208,17 +266,18 @@ def _instantiate(h, shape, mapping, tag):
         prologue.append(ast.Assign(targets=[ast.Name(id=f"_{tag}_{p_}", ctx=ast.Store())], value=copy.deepcopy(mapping.pop(p_)), lineno=0, col_offset=0))
     locs = stored - set(mapping)
     ren = {n: f"_{tag}_{n}" for n in locs}
-    stmts = prologue + [copy.deepcopy(s) for s in shape[1]]
-    expr = copy.deepcopy(shape[2]) if shape[0] == "func" else None
-    out = []
-    for s in stmts:
-        s = _Rename(ren).visit(s)
-        s = _Subst(mapping).visit(s)
-        out.append(s)
-    if expr is not None:
-        expr = _Rename(ren).visit(expr)
-        expr = _Subst(mapping).visit(expr)
-    return out, expr
+
+    def inst(node):
+        node = _Rename(ren).visit(copy.deepcopy(node))
+        return _Subst(mapping).visit(node)
+
+    stmts = [inst(s) for s in shape[1]]
+    expr = inst(shape[2]) if shape[0] == "func" else None
+    if shape[0] == "tail":
+        resname = result_target or f"_{tag}_result"
+        stmts = _returns_to_assign(stmts, ast.Name(id=resname, ctx=ast.Store()))
+        expr = ast.Name(id=resname, ctx=ast.Load())
+    return prologue + stmts, expr
 
 
 def inline_helpers(fn, owner_cls, helpers, cls_helpers):
@@ -263,19 +322,25 @@ def inline_helpers(fn, owner_cls, helpers, cls_helpers):
                     else:
                         mapping = _bind(h, call, recv) if shape else None
                     if shape and mapping is not None:
-                        body, expr = _instantiate(h, shape, mapping, h.name.strip("_"))
+                        rt = None
+                        if shape[0] == "tail" and kind == "assign" and len(st.targets) == 1 and isinstance(st.targets[0], ast.Name) and st.targets[0].id not in {n.id for a_ in mapping.values() for n in ast.walk(a_) if isinstance(n, ast.Name)}:
+                            rt = st.targets[0].id
+                        body, expr = _instantiate(h, shape, mapping, h.name.strip("_"), result_target=rt)
                         for s in body:
                             ast.copy_location(s, st)
                             ast.fix_missing_locations(s)
                         if shape[0] == "proc" and kind == "expr":
                             blk[i:i + 1] = body or [ast.copy_location(ast.Pass(), st)]
                             done = True
-                        elif shape[0] == "func":
+                        elif shape[0] in ("func", "tail"):
                             if kind == "expr":
                                 blk[i:i + 1] = body + [ast.copy_location(ast.Expr(value=expr), st)]
                             elif kind == "assign":
-                                st.value = expr
-                                blk[i:i + 1] = body + [st]
+                                if rt is not None:
+                                    blk[i:i + 1] = body  # the helper's returns were turned into assignments to the target itself
+                                else:
+                                    st.value = expr
+                                    blk[i:i + 1] = body + [st]
                             elif kind == "return":
                                 st.value = expr
                                 blk[i:i + 1] = body + [st]
@@ -346,6 +411,18 @@ def inline_temps(fn, known_locals):
                     if name.startswith("_") and name.count("_") >= 2 and False:
                         continue
                     if any(isinstance(x, (ast.Yield, ast.YieldFrom, ast.Await, ast.NamedExpr, ast.Lambda, ast.ListComp, ast.DictComp, ast.SetComp, ast.GeneratorExp)) for x in ast.walk(st.value)):
+                        continue
+                    if isinstance(st.value, (ast.Dict, ast.List, ast.Set, ast.Tuple)) and not isinstance(st.value, ast.Tuple):
+                        continue  # a container that is filled afterwards is not a temporary
+                    mutated = False
+                    for n in _own(fn):
+                        if isinstance(n, ast.Subscript) and isinstance(n.ctx, (ast.Store, ast.Del)) and isinstance(n.value, ast.Name) and n.value.id == name:
+                            mutated = True
+                        if isinstance(n, ast.Attribute) and isinstance(n.ctx, (ast.Store, ast.Del)) and isinstance(n.value, ast.Name) and n.value.id == name:
+                            mutated = True
+                        if isinstance(n, ast.Call) and isinstance(n.func, ast.Attribute) and isinstance(n.func.value, ast.Name) and n.func.value.id == name and n.func.attr in ("append", "extend", "insert", "update", "setdefault", "pop", "remove", "add", "clear", "sort"):
+                            mutated = True
+                    if mutated:
                         continue
                     free = {x.id for x in ast.walk(st.value) if isinstance(x, ast.Name)}
                     rest = blk[i + 1:]
